@@ -18,6 +18,11 @@ pub enum ElementType {
 }
 
 impl ElementProps {
+    /// the path of the element's named type, as it is written in the output
+    pub fn element_type_path(&self) -> String {
+        self.rust_type().map(|t| t.to_string()).unwrap_or_default()
+    }
+
     pub fn rust_type(&self) -> Option<RustFieldType> {
         match &self.element_type {
             ElementType::RustType(rust_type) => Some(rust_type.clone()),
